@@ -381,6 +381,28 @@ let stats_line line =
       end
   | _ -> "unknown"
 
+(* cli: one whole run in a check mode.
+   <all|sanity> <none|its|stave> <filter> <mute 0|1> <cap> <w codes -|a,b> <E -|n> <cdps -|n> <pht -|n> <period -|n> <file|pipe> <hex> *)
+let cli_line line =
+  match split_ws line with
+  | [ mode; target; filter; mute; cap; wc; ee; cdps; pht; period; src; hex ] ->
+      let input = if hex = "-" then [] else bytes_of_hex hex in
+      let tg = match target with "none" -> T_none | "its" -> T_its | _ -> T_stave in
+      let vc = { v_running = (mode = "all"); v_target = tg; v_period = opt_n period; v_custom_version = None; v_chip_count = None; v_chip_orders = None } in
+      let sc = parse_scfg src filter (if target = "none" then "1" else "0") in
+      let codes = if wc = "-" then None else Some (List.map (fun x -> n_of_int (int_of_string x)) (String.split_on_char ',' wc)) in
+      let c = { rc_scan = sc; rc_check = vc; rc_mute = (mute = "1"); rc_cap = n_of_int (int_of_string cap); rc_filter = codes;
+                rc_exit = opt_n ee; rc_counts = { cc_cdps = opt_n cdps; cc_pht = opt_n pht } } in
+      (match run_check fatal_sets_any_errors_flag c input with
+       | R_too_short -> "SHORT"
+       | R_unrecognised -> "UNRECOGNISED exit=1"
+       | R_panic s -> "PANIC:" ^ dec s
+       | R_done (s, shown, ex) ->
+           Printf.sprintf "exit=%s total=%s fatal=%s shown=%s" (dec ex) (dec s.k_total)
+             (match s.k_fatal with Some _ -> "1" | None -> "0")
+             (String.concat ";" (List.map (fun m -> Printf.sprintf "%X.%s" (int_of_n m.m_off) (match m.m_codes with c :: _ -> dec c | [] -> "-")) shown)))
+  | _ -> "unknown"
+
 let rdhrt_line line =
   let b = bytes_of_hex (String.trim line) in
   let r = decode_rdh b in
@@ -402,6 +424,7 @@ let () =
     | "writer" -> writer_line
     | "collector" -> collector_line
     | "stats" -> stats_line
+    | "cli" -> cli_line
     | "wordspec" -> wordspec_line
     | "rdhspec" -> rdhspec_line
     | _ -> prerr_endline ("unknown stream " ^ stream); exit 2
